@@ -268,11 +268,21 @@ def _zi(x):
     if t is _o_float:
         if x != x or x in (_o_float("inf"), _o_float("-inf")):
             return None
-        fr = Fraction(x)
-        return z3.RealVal(str(fr))
+        return z3.RealVal(str(rationalise(x)))
     if t is Fraction:
         return z3.RealVal(str(x))
     return None
+
+
+def rationalise(x):
+    """A double that is the nearest double of a simple fraction p/q (q <= 10**6) is read as p/q (0.2 -> 1/5,
+    1/3 -> 1/3, 1.5 -> 3/2); any other double keeps its exact binary value. Sound for comparisons of
+    int/int quotients (ints < 2**31) against such constants, see DESIGN 1.4."""
+    fr = Fraction(x)
+    simple = fr.limit_denominator(10 ** 6)
+    if _o_float(simple) == x:
+        return simple
+    return fr
 
 
 def _zb(x):
